@@ -68,6 +68,10 @@ def space(tier, seed):
     qs.append(('base', {'items': [('bmax', F('a', 1), F('a', 2))], 'where': None, 'group': None}))
     qs.append(('gen', {'items': [F('a', 1), ('bmaxgen', F('a', 3), ';'), ('bminmap', F('a', 3), ';'), ('bsumgen', F('a', 3), ';')], 'where': None, 'group': None}))
     qs.append(('gen', {'items': [F('a', 1), ('agg', 'SUM', 'U', ('bmaxgen', F('a', 3), ';'))], 'where': None, 'group': [F('a', 1)]}))
+    # scale probe: one group of 15..20 distinct values (even and odd sizes: the two middle elements differ)
+    for kind in ('MEDIAN', 'AVG', 'VARIANCE', 'MIN', 'MAX', 'SUM', 'COUNT', 'ARRAY_AGG'):
+        qs.append(('biggroup', {'items': [A(kind, 'U', F('a', 3))], 'where': None, 'group': None}))
+    qs.append(('biggroup', {'items': [F('a', 1), A('MEDIAN', 'l', F('a', 3)), A('COUNT', 'U', ('star', None))], 'where': None, 'group': [F('a', 1)]}))
     # group keys whose code-point order differs from a case-insensitive / locale collation
     for kind in ('COUNT', 'ARRAY_AGG'):
         qs.append(('keycase', {'items': [F('a', 1), ('agg', kind, 'U', F('a', 3))], 'where': None, 'group': [F('a', 1)]}))
@@ -87,6 +91,13 @@ def space(tier, seed):
 def tables_for(sp_, slice_, maxrows):
     g, h = sp_['g'], sp_['h']
     res = []
+    if slice_ == 'biggroup':
+        out = []
+        for n_ in (15, 16, 17, 18, 20, 33):
+            vals = [str((7 * i) % 41 - 9) for i in range(n_)]          # distinct, unsorted, some negative
+            out.append([[g, 'u', v] for v in vals])
+            out.append([[g if i % 3 else h, 'u', v] for i, v in enumerate(vals)])
+        return out
     if slice_ == 'gen':
         rows = [[g, 'u', v] for v in ('1;5;3', '7', '-2;0')] + [[h, 'u', '4;4']]
         return list(qcheck.tables_upto(rows, min(maxrows, 3)))
